@@ -11,3 +11,25 @@ func (s *SQLiteStore) VerifCheckpoint() error { return s.checkpointPassive() }
 // VerifDB exposes the connection pool for read-only integrity checks
 // (PRAGMA integrity_check, counter/row comparisons) made by the harness.
 func (s *SQLiteStore) VerifDB() *sql.DB { return s.db }
+
+// VerifSnapshot returns a copy of every stored message including its lease
+// fields, ordered by id, and a copy of the lease table (lease id -> message
+// id), so that the harness can compare complete store states.
+func (s *MemoryStore) VerifSnapshot() ([]Envelope, map[string]string) {
+	s.mu.Lock()
+	defer s.mu.Unlock()
+	out := make([]Envelope, 0, len(s.items))
+	for _, env := range s.items {
+		out = append(out, *env)
+	}
+	for i := 1; i < len(out); i++ {
+		for j := i; j > 0 && out[j].ID < out[j-1].ID; j-- {
+			out[j], out[j-1] = out[j-1], out[j]
+		}
+	}
+	leases := make(map[string]string, len(s.leases))
+	for k, v := range s.leases {
+		leases[k] = v
+	}
+	return out, leases
+}
